@@ -43,8 +43,8 @@ def _shapes(tier):
                 for opening in (0, 1):
                     for pickup in (0, 1):
                         for final in (0, 1):
-                            for fk in (1, 2, 3):
-                                out.append((M, tuple(lens), opening, pickup, final, 1 if fk != 1 else 2, 0, fk))
+                            for fk, ks in ((1, 1), (1, 2), (2, 1), (3, 1)):
+                                out.append((M, tuple(lens), opening, pickup, final, ks, 0, fk))
         return out
     for M in range(1, maxM + 1):
         lens_opts = itertools.product((0, 1, 2), repeat=M) if (tier == 'quick' or M <= 3) else \
